@@ -2,6 +2,7 @@ package drivers
 
 import (
 	"encoding/json"
+	"fmt"
 	"io"
 	"net"
 	"reflect"
@@ -82,6 +83,8 @@ func errClass(err error) string {
 		return "timeout"
 	case strings.HasPrefix(err.Error(), "Client attempts to advertise unsupported application"):
 		return "config"
+	case strings.HasPrefix(err.Error(), "panic in Dial"):
+		return "panic"
 	case err == smparser.ErrMissingResultCode, err == smparser.ErrMissingOriginHost, err == smparser.ErrMissingOriginRealm:
 		return "malformed"
 	case err == smparser.ErrMissingApplication, err == smparser.ErrNoCommonApplication:
@@ -289,6 +292,9 @@ func runHandshake(id int, sc *hsScript, configured bool) hsLine {
 	}
 	mc := memnet.NewConn()
 	lg := &evlog{}
+	if sc.Kind == "failok" {
+		lg.failGate = make(chan struct{})
+	}
 	logsByConn.Store(reflect.ValueOf(mc).Pointer(), lg)
 	defer logsByConn.Delete(reflect.ValueOf(mc).Pointer())
 	l.Conform = true
@@ -337,6 +343,11 @@ func runHandshake(id int, sc *hsScript, configured bool) hsLine {
 	}
 	resc := make(chan dialRes, 1)
 	go func() {
+		defer func() {
+			if r := recover(); r != nil { // a panic in the caller's own goroutine: nothing in the library recovers it
+				resc <- dialRes{nil, fmt.Errorf("panic in Dial: %v", r), mc.Closed()}
+			}
+		}()
 		c, err := cli.NewConn(mc, "10.0.0.2:3868")
 		resc <- dialRes{c, err, mc.Closed()}
 	}()
@@ -360,6 +371,11 @@ func runHandshake(id int, sc *hsScript, configured bool) hsLine {
 					if sc.Kind == "eof" {
 						lg.add(cnEvent{Ev: "peer.eof"})
 						mc.FeedErr(io.EOF)
+					} else if sc.Kind == "failok" {
+						// a failing CEA with a success CEA right behind it, in one fragment
+						lg.add(cnEvent{Ev: "peer", K: "fail"})
+						lg.add(cnEvent{Ev: "peer", K: "ok"})
+						mc.Feed(append(ceaFor("fail", &msgs[sc.At-1]), ceaFor("ok", &msgs[sc.At-1])...))
 					} else {
 						lg.add(cnEvent{Ev: "peer", K: peerKind(sc.Kind)})
 						mc.Feed(ceaFor(sc.Kind, &msgs[sc.At-1]))
